@@ -283,6 +283,9 @@ class NodeLib(LibBase):
         if con is None:
             if name in st.f and isinstance(st.f[name], VDyn):
                 return self.consult(ex, st.f[name], "call", st, _Line(lineno))
+            r = self.inline_accessor(ex, name, args, kw, st, lineno)
+            if r is not None:
+                return r
             raise Unsupported("call to self.%s() which has no contract (line %d)" % (name, lineno))
         amap = {}
         for k, (pn, kind, default) in enumerate(con.params):
